@@ -256,7 +256,7 @@ func (g *gen) arg(fnKey string, p data.Parameter, variant int, after *[]string) 
 	case strings.HasPrefix(ts, "map[string]string"):
 		return `map[string]string{}`
 	case strings.HasPrefix(ts, "func("):
-		return strings.TrimSuffix(ts, " ") + " { return key }"
+		return "nil"
 	case strings.HasPrefix(ts, "time.Duration"):
 		g.imports["time"] = true
 
